@@ -423,7 +423,7 @@ Lemma Inv_discover_services n i ss :
 Proof.
   intros H Hi. unfold discover_services.
   set (k := hkey (heap n) i).
-  set (svcs' := d_set Z.eqb k (set_union (svc_of n k) ss) (services n)).
+  set (svcs' := d_set Z.eqb k (set_union (svc_of n k) (svc_set ss)) (services n)).
   set (p := match d_get Z.eqb k (by_key n) with Some j => j | None => i end).
   assert (Pk : hkey (heap n) p = k /\ (p < length (heap n))%nat /\
                forall j, In j (verified n) -> hkey (heap n) j = k -> j = p).
@@ -440,7 +440,9 @@ Proof.
       assert (E : (k =? hkey (heap n) j) = false) by (apply Z.eqb_neq; congruence). rewrite E in Hm. assumption.
     - intros Hns j Hj Hm. apply G2; [assumption|]. unfold svcs' in Hm. rewrite svc_lookup_set in Hm.
       destruct (k =? hkey (heap n) j) eqn:E; [|assumption].
-      apply Z.eqb_eq in E. rewrite <- E. apply mem_set_union in Hm as [Hm|Hm]; [exact Hm|contradiction]. }
+      apply Z.eqb_eq in E. rewrite <- E. apply mem_set_union in Hm as [Hm|Hm]; [exact Hm|].
+      exfalso. apply Hns. assert (M : mem_z s (svc_set ss) = true) by (apply mem_z_In; exact Hm).
+      unfold svc_set in M. apply mem_set_union in M as [M|M]; [discriminate M|exact M]. }
   destruct (fold_QR (heap n) (verified n) svcs' (svc_cap n) k p ss Pk1 Pk2 ss (svc_cache n) (incl_refl ss) Q0) as [QF RF].
   apply Inv_set_services_svc; [assumption| |].
   - intros s l j Hin Hj. destruct (QF s l Hin) as (_ & Q2 & _). auto.
